@@ -50,6 +50,7 @@ type verifSelfDoc struct {
 	In       verifSelfInner  `json:"in"`
 	P        *verifSelfInner `json:"p,omitempty"`
 	Q        *verifSelfInner `json:"q"`
+	R        *verifSelfInner `json:"r"`
 	verifSelfEmb
 	Other string `yaml:"x"`
 }
@@ -108,6 +109,76 @@ func VerifSelf_JSON() uint64 {
 	for i := range docs {
 		sum = verifSelfFold(sum, verifapi.JSONMembers(docs[i], nil), keys)
 		sum = verifSelfFold(sum, verifapi.JSONMembers(&docs[i], nil), keys)
+	}
+	return sum
+}
+
+type verifSelfTarget struct {
+	PLAIN   string // case-insensitive match of "Plain"
+	Type    string
+	Sdp     *string `json:"sdp"`
+	N       int8    `json:"n"` // range
+	U8      int
+	F       string      `json:"f"` // wrong kind: type error, field kept
+	In      interface{} `json:"in"`
+	P       verifSelfInner
+	Q       *verifSelfInner `json:"q"`
+	E1      []byte          `json:"-"`
+	E2      bool            `json:"e2"`
+	Other   float64         `json:"n2"`
+	Missing string
+	Any     map[string]interface{} `json:"p2"`
+	R       verifSelfInner         `json:"r"`
+}
+
+func VerifSelf_JSONTransfer() uint64 {
+	docs := []verifSelfDoc{
+		{},
+		{Plain: "p", Renamed: "offer", Omit: "v=0", N: 7, U8: 200, F: true,
+			In: verifSelfInner{A: "x", B: 3}, P: &verifSelfInner{A: "pa", B: 9}, Q: &verifSelfInner{B: 255},
+			verifSelfEmb: verifSelfEmb{E1: "e", E2: true}},
+		{N: -129, In: verifSelfInner{B: 0}},
+		{N: 127, Omit: "", P: &verifSelfInner{}},
+		{N: -128, U8: 1, R: &verifSelfInner{A: "rr", B: 6}},
+	}
+	var sum uint64
+	for i := range docs {
+		keep := "kept"
+		tgt := verifSelfTarget{PLAIN: "old", Type: "oldtype", Sdp: &keep, N: 5, F: "fold", Missing: "m", Q: &verifSelfInner{A: "qa", B: 1}, R: verifSelfInner{A: "ra", B: 4}}
+		ok := verifapi.JSONTransfer(docs[i], &tgt, nil)
+		sum = sum*31 + 1
+		if ok {
+			sum += 2
+		}
+		for _, s := range []string{tgt.PLAIN, tgt.Type, tgt.F, tgt.Missing, tgt.P.A, tgt.R.A} {
+			sum = sum*7 + uint64(len(s))
+			for k := 0; k < len(s); k++ {
+				sum = sum*3 + uint64(s[k])
+			}
+		}
+		if tgt.Sdp == nil {
+			sum += 5
+		} else {
+			sum += uint64(len(*tgt.Sdp)) * 11
+		}
+		sum = sum*13 + uint64(int64(tgt.N)+1000) + uint64(tgt.U8)*17 + uint64(tgt.P.B)*19 + uint64(tgt.R.B)*41
+		if tgt.Q == nil {
+			sum += 23
+		} else {
+			sum += uint64(tgt.Q.B)*29 + uint64(len(tgt.Q.A))
+		}
+		if tgt.E2 {
+			sum += 31
+		}
+		if m, isMap := tgt.In.(map[string]interface{}); isMap {
+			sum = verifSelfFold(sum, m, []string{"a", "b"})
+		}
+		sum %= 1000000007
+		// and into a generic map
+		var g map[string]interface{}
+		if verifapi.JSONTransfer(&docs[i], &g, nil) {
+			sum = verifSelfFold(sum+37, g, []string{"Plain", "type", "sdp", "n", "U8", "f", "in", "p", "q", "E1", "e2"})
+		}
 	}
 	return sum
 }
